@@ -9,6 +9,8 @@ from props import logix as lx
 def run(ctx, model):
     from props import logixdrv
     logixdrv.run_tagdb(ctx, model, "C05")
+    # LogixDriver.open() as a whole == its Lean model (Logix/Open.lean): frames, outcome, tag database, info, target state
+    logixdrv.run_open(ctx, model, "C05")
     from props import kernels
     kernels.run_filter(ctx, model, "C05")
     kernels.run_upload_parsers(ctx, model, "C05")
